@@ -308,3 +308,71 @@ Example T14r_rule_rejects :
   sw_ok ("mtbl/reader.c", "get_block", "?", "p->x") = false /\
   (0 < List.length STRUCT_WRITES)%nat.
 Proof. vm_compute. repeat split; apply Nat.lt_0_succ || (repeat constructor). Qed.
+
+(* ------------------------------------------------------------------------------------------------
+   Writer and sorter fields owned by the result-handler thread.  The LTS theorems above are about
+   threadpool.c; which fields of `struct mtbl_writer' / `struct mtbl_sorter' the handler thread's
+   callback touches, and that the caller's thread keeps away from them until it has joined the handler,
+   is a fact about writer.c / sorter.c.  gen/Ties.v lists (regenerated from /repo on every run)
+     FIELD_ACCESSES - every syntactic access to a field of the two structures: function, field (two
+       components for the metadata: m.count_entries), kind (W assignment, A address taken, R any other
+       use - for a pointer field also every use of the object it points to), the index of the statement
+       in its function with its brace depth, and the guard `nopool' for statements in the else-branch of
+       `if (x->pool != NULL)' (code that runs only when no handler thread exists); and the statements
+       that wait for the handler thread (result_handler_destroy, or a call of _mtbl_writer_finish).
+   T14w_handler_fields_not_touched_by_caller: take the fields the handler thread's functions touch
+   (_write_data_block_wrapper / _mtbl_writer_write_data_block: fd, last_offset, pending_offset,
+   m.bytes_data_blocks, m.count_data_blocks, the index builder; _collect_readers_cb: the readers vector).
+   Every access to one of them from any other function is in an init function (before the handler thread
+   is created), or after that function's join statement, or under the `nopool' guard - or the field is
+   the descriptor fd, a plain value never written outside init.  So between creation and join the handler thread is the only one
+   that touches them: no race on these fields, by a rule checked against the current source.  The rule
+   is syntactic (named struct pointers; no alias tracking); ThreadSanitizer remains the search. *)
+Definition facc := (string * string * string * string * string * nat * nat * string)%type.
+Definition fa_fn (a : facc) : string := let '(_, fn, _, _, _, _, _, _) := a in fn.
+Definition fa_struct (a : facc) : string := let '(_, _, st, _, _, _, _, _) := a in st.
+Definition fa_field (a : facc) : string := let '(_, _, _, f, _, _, _, _) := a in f.
+Definition fa_kind (a : facc) : string := let '(_, _, _, _, k, _, _, _) := a in k.
+Definition fa_idx (a : facc) : nat := let '(_, _, _, _, _, i, _, _) := a in i.
+Definition fa_depth (a : facc) : nat := let '(_, _, _, _, _, _, d, _) := a in d.
+Definition fa_guard (a : facc) : string := let '(_, _, _, _, _, _, _, g) := a in g.
+Definition smem (x : string) (l : list string) : bool := existsb (String.eqb x) l.
+
+Definition init_fns : list string := ["mtbl_writer_init_fd"; "mtbl_sorter_init"].
+Definition handler_fns : list string := ["_write_data_block_wrapper"; "_mtbl_writer_write_data_block"; "_collect_readers_cb"].
+(* statement index of the join, and the brace depth it covers: its own depth - or one less when it stands in
+   the block guarded by the test of the closed flag in mtbl_writer_destroy: closed is set by _mtbl_writer_finish alone, after its join, so
+   when the test fails the join has happened in an earlier call *)
+Definition join_index (l : list facc) (fn : string) : option (nat * nat) :=
+  match find (fun a => String.eqb (fa_fn a) fn && String.eqb (fa_kind a) "J") l with
+  | Some a => Some (fa_idx a, if String.eqb (fa_guard a) "if(!(*w)->closed)" then Nat.pred (fa_depth a) else fa_depth a)
+  | None => None end.
+Definition handler_field (l : list facc) (st f : string) : bool :=
+  existsb (fun a => smem (fa_fn a) handler_fns && String.eqb (fa_struct a) st && String.eqb (fa_field a) f) l.
+Definition written_only_at_init (l : list facc) (st f : string) : bool :=
+  forallb (fun a => negb (String.eqb (fa_struct a) st && String.eqb (fa_field a) f && negb (String.eqb (fa_kind a) "R")) || smem (fa_fn a) init_fns) l.
+Definition scalar_fields : list string := ["fd"].
+Definition access_ok (l : list facc) (a : facc) : bool :=
+  String.eqb (fa_kind a) "J" || smem (fa_fn a) handler_fns || smem (fa_fn a) init_fns || String.eqb (fa_guard a) "nopool" ||
+  (* after the join statement, and not outside the block the join stands in (a join inside a conditional does not cover
+     the code after the conditional) *)
+  match join_index l (fa_fn a) with Some (j, dj) => Nat.ltb j (fa_idx a) && Nat.leb dj (fa_depth a) | None => false end ||
+  negb (handler_field l (fa_struct a) (fa_field a)) ||
+  (* a plain value (not a pointer to an object the handler changes) that nobody writes after init: both threads may read it *)
+  (smem (fa_field a) scalar_fields && written_only_at_init l (fa_struct a) (fa_field a)).
+
+Theorem T14w_handler_fields_not_touched_by_caller : forallb (access_ok FIELD_ACCESSES) FIELD_ACCESSES = true.
+Proof. vm_compute. reflexivity. Qed.
+Print Assumptions T14w_handler_fields_not_touched_by_caller.
+
+(* the rule is not vacuous: the handler owns the fields named above, and an access to one of them from
+   mtbl_writer_add, or from mtbl_sorter_iter BEFORE its join statement, is rejected *)
+Example T14w_rule_rejects :
+  handler_field FIELD_ACCESSES "mtbl_writer" "pending_offset" = true /\
+  handler_field FIELD_ACCESSES "mtbl_writer" "index" = true /\
+  handler_field FIELD_ACCESSES "mtbl_sorter" "readers" = true /\
+  access_ok FIELD_ACCESSES ("mtbl/writer.c", "mtbl_writer_add", "mtbl_writer", "pending_offset", "R", 3%nat, 0%nat, "") = false /\
+  access_ok FIELD_ACCESSES ("mtbl/sorter.c", "mtbl_sorter_iter", "mtbl_sorter", "readers", "R", 2%nat, 0%nat, "") = false /\
+  access_ok FIELD_ACCESSES ("mtbl/sorter.c", "mtbl_sorter_iter", "mtbl_sorter", "readers", "R", 12%nat, 0%nat, "") = true /\
+  access_ok FIELD_ACCESSES ("mtbl/writer.c", "mtbl_writer_add", "mtbl_writer", "fd", "R", 3%nat, 0%nat, "") = true.
+Proof. vm_compute. repeat split. Qed.
